@@ -516,6 +516,17 @@ def tp_family(spec):
         if v == 4:  # float32 first, float64 later (precision is lost if the output takes the first operator's dtype)
             c, s_ = np.cos(0.3), np.sin(0.3)
             return [0.5 * np.eye(2, dtype=np.float32), np.sqrt(0.75) * np.array([[c, -s_], [s_, c]])]  # 0.5 is exact in float32
+    if t == "overcomplete":  # more than d^2 operators (a non-minimal but perfectly valid description): a family listed twice at weight
+        # 1/sqrt(2), or six weighted unitaries on a qubit - added after seeded change C05-12, which rejected r > d^2
+        v = spec["v"]
+        if v == 0:
+            base = tp_family({"t": "pauli", "p": [0.25, 0.25, 0.25, 0.25]})
+            return [np.sqrt(0.5) * k for k in base] + [np.sqrt(0.5) * k for k in base[::-1]]
+        if v == 1:
+            keys, w = ["I", "F", "X", "Z", "g0", "g1"], [3, 2, 2, 1, 2, 2]
+            return [np.sqrt(wk / 12.0) * catalog.unitary(2, kk) for wk, kk in zip(w, keys)]
+        base = ch.isometry_family(3, 4, "g0")
+        return [np.sqrt(1 / 3.0) * k for k in base] * 3        # 12 operators on a qutrit
     if t == "iso_rot":  # isometry family followed by a unitary on the output and preceded by one on the input: still TP
         ks = ch.isometry_family(spec["d"], spec["r"], spec["u"])
         W = catalog.unitary(spec["d"], "g1")
@@ -539,6 +550,9 @@ def comp_specs(tier):
         out.append({"t": "mixed_dtype", "v": v, "d": 3 if v == 3 else 2})
     for p in ([0.5, 0.5, 0, 0], [0.5, 0, 0.25, 0.25], [0.25, 0.25, 0.25, 0.25], [0.7, 0.1, 0.1, 0.1], [0, 0.5, 0.5, 0]):
         out.append({"t": "pauli", "p": p})
+    out.append({"t": "overcomplete", "v": 0})
+    out.append({"t": "overcomplete", "v": 1})
+    out.append({"t": "overcomplete", "v": 2, "d": 3})
     return out
 
 
